@@ -14,6 +14,7 @@ LEVEL = "exploration"
 BUDGET = {"quick": 3000, "thorough": 100000}
 HEADS = ["alpha", "beta", "gamma", "delta", "interface", "eps"]
 VALS = ["a", "b", "1", "lx"]
+NUMS = [0, 0, 7, 0.0]   # block()/block_if()/tuple tokens may be numbers (vlan ids, area 0, ...)
 RULE = ("Hypothesis draws 1..3 generator programs (ops: yield row / yield tuple / multi-line yield with relative indentation / block / "
         "block_if with explicit or default condition / multiblock, nested to depth 3), each with an ACL text derived from the rows it yields "
         "(some rows left uncovered, patterns generalised, nested or '~ %global' bodies, %cant_delete flags) and a vendor (huawei, cisco). "
@@ -34,6 +35,8 @@ def gen_prog(rnd, depth=0):
     for _ in range(rnd.randint(1, 4)):
         x = rnd.randint(0, 99)
         row = [rnd.choice(HEADS)] + [rnd.choice(VALS) for _ in range(rnd.randint(0, 2))]
+        if x >= 30 and not (42 <= x < 52) and rnd.chance(20):
+            row.append(rnd.choice(NUMS))   # only where tokens are passed as values: tuple yields, block*, multiblock
         if x < 30:
             ops.append(["y", " ".join(row)])
         elif x < 42:
@@ -56,7 +59,7 @@ def gen_prog(rnd, depth=0):
         elif depth < 2:
             ops.append(["mb", [row, [rnd.choice(HEADS), rnd.choice(VALS)]], gen_prog(rnd, depth + 2)])
         else:
-            ops.append(["y", " ".join(row)])
+            ops.append(["y", " ".join(map(str, row))])
     return ops
 
 
@@ -68,14 +71,14 @@ def model_paths(ops, path=()):
         if k == "y":
             out.append(path + (op[1],))
         elif k == "yt":
-            out.append(path + (" ".join(op[1]),))
+            out.append(path + (" ".join(map(str, op[1])),))
         elif k == "ym":
             stack = []
             for lvl, row in op[1]:
                 stack = stack[:lvl] + [row]
                 out.append(path + tuple(stack))
         elif k == "b":
-            row = " ".join(op[1])
+            row = " ".join(map(str, op[1]))
             out.append(path + (row,))
             out += model_paths(op[2], path + (row,))
         elif k == "bif":
@@ -91,7 +94,7 @@ def model_paths(ops, path=()):
         elif k == "mb":
             p = path
             for blk in op[1]:
-                row = " ".join(blk)
+                row = " ".join(map(str, blk))
                 p = p + (row,)
                 out.append(p)
             out += model_paths(op[2], p)
@@ -107,7 +110,7 @@ def tree_of(paths):
     return t
 
 
-def acl_for(rnd, tree):
+def acl_for(rnd, tree, protect=()):
     rules = {}
     for row, ch in tree.items():
         if rnd.chance(4):
@@ -137,8 +140,14 @@ def acl_for(rnd, tree):
             have = {" ".join(r["toks"]) for r in rules[key]["children"]}
             rules[key]["children"] += [r for r in sub if " ".join(r["toks"]) not in have]
         else:
-            rules[key] = RA.acl_rule(toks, sub, cd=rnd.choice([None, None, 0, 1]))
-    return list(rules.values())
+            rules[key] = RA.acl_rule(toks, sub, cd=1 if (row in protect and rnd.chance(85)) else rnd.choice([None, None, 0, 1]))
+    out = list(rules.values())
+    # the same rule row written twice in one ACL (hand-maintained ACLs: once protected, once not); the lines differ textually
+    for r in list(out):
+        if not r.get("glob") and rnd.chance(12):
+            other = rnd.choice([c for c in (None, 0, 1) if c != r["cd"]])
+            out.insert(rnd.randint(0, len(out)), RA.acl_rule(r["toks"], list(r["children"]) if rnd.chance(50) else [], cd=other))
+    return out
 
 
 @st.composite
@@ -148,7 +157,15 @@ def _cases(draw):
     gens = []
     for i in range(rnd.randint(1, 3)):
         prog = gen_prog(rnd)
-        acl = acl_for(rnd, tree_of(model_paths(prog)))
+        protect = set()
+        blocks0 = [op for op in gens[0]["prog"] if op[0] == "b"] if gens else []
+        if blocks0 and rnd.chance(50):
+            # this generator writes into a block that the first generator also fills (interface X: one generator per feature);
+            # it usually marks the shared header as not its own to delete
+            op = rnd.choice(blocks0)
+            prog.insert(rnd.randint(0, len(prog)), ["b", op[1], gen_prog(rnd, 1)])
+            protect.add(" ".join(map(str, op[1])))
+        acl = acl_for(rnd, tree_of(model_paths(prog)), protect)
         gens.append({"prog": prog, "acl": acl, "acl_indent": rnd.choice([0, 0, 4, 8, 12])})
     return {"vendor": vendor, "gens": gens}
 
